@@ -1,5 +1,6 @@
 import TT.Model.Pipe
 import TT.Lemmas.Pipe
+import TT.Props.C10
 /-!
 # C14  Idle and establishment timeouts fire when, and only when, they should
 (idle timer of the TCP tunnel; the establishment / handshake timeouts are `tokio::time::timeout`
@@ -87,3 +88,46 @@ example : (trun ⟨10, 0, 0, 0, 0, none⟩ [.progress .right 5, .fire .left, .fi
 example : (trun ⟨10, 0, 0, 0, 0, none⟩ [.progress .right 10, .fire .left, .fire .left]).expired = none := by decide
 
 end TT.Pipe
+
+/-! ### establishment timeout (`Tunnel::on_tcp_connect_request`, model `TT.Dispatch.handle`) -/
+namespace TT.Dispatch
+open TT TT.Gen
+
+/-- **An attempt that does not complete within the establishment timeout is reported as 502 with
+warning 302** - for every passed CONNECT to an ordinary destination, literal address or host name
+alike, whatever the credentials - and nothing else is answered -/
+theorem establishment_timeout_reported (r : Req) (hm : r.method = .connect) (policy : Policy) (authn : Option Authn)
+    (env : Env) (fa : Option Source) (hg : gate (authInfo r.authHdr) policy authn = .pass fa) (hk : promote r = .tcp)
+    (hd : r.authority.isSome = true ∧ (r.isLiteral = true ∨ r.port.isSome = true))
+    (ms : Nat) (hc : env.connect = .delayedOk ms) (hlate : env.establishTimeoutMs < ms) :
+    handle r policy authn env = [.egress .tcpConnect, .response ⟨502, [.warn 302]⟩] := by
+  rw [connect_result r hm policy authn env fa hg hk hd, hc]
+  have : ¬ ms ≤ env.establishTimeoutMs := by omega
+  simp [this, failWith, statusOf, warnOf]
+
+/-- an attempt that completes in time is never cut short by the establishment timer -/
+theorem establishment_in_time_connected (r : Req) (hm : r.method = .connect) (policy : Policy) (authn : Option Authn)
+    (env : Env) (fa : Option Source) (hg : gate (authInfo r.authHdr) policy authn = .pass fa) (hk : promote r = .tcp)
+    (hd : r.authority.isSome = true ∧ (r.isLiteral = true ∨ r.port.isSome = true))
+    (ms : Nat) (hc : env.connect = .delayedOk ms) (hin : ms ≤ env.establishTimeoutMs) :
+    handle r policy authn env = [.egress .tcpConnect, ok200] := by
+  rw [connect_result r hm policy authn env fa hg hk hd, hc]
+  simp [hin]
+
+/-- the outcome depends on the destination only through "is an ordinary destination": a host name
+and a literal address time out alike -/
+theorem establishment_timeout_destination_independent (r r' : Req) (hm : r.method = .connect) (hm' : r'.method = .connect)
+    (policy : Policy) (authn : Option Authn) (env : Env) (fa fa' : Option Source)
+    (hg : gate (authInfo r.authHdr) policy authn = .pass fa) (hg' : gate (authInfo r'.authHdr) policy authn = .pass fa')
+    (hk : promote r = .tcp) (hk' : promote r' = .tcp)
+    (hd : r.authority.isSome = true ∧ (r.isLiteral = true ∨ r.port.isSome = true))
+    (hd' : r'.authority.isSome = true ∧ (r'.isLiteral = true ∨ r'.port.isSome = true)) :
+    handle r policy authn env = handle r' policy authn env := by
+  rw [connect_result r hm policy authn env fa hg hk hd, connect_result r' hm' policy authn env fa' hg' hk' hd']
+
+example : handle ⟨.connect, some "example.org:443", false, some 443, none⟩ .default_ none
+    ⟨.delayedOk 30001, 30000, false, some true, false⟩ = [.egress .tcpConnect, .response ⟨502, [.warn 302]⟩] := by decide
+example : handle ⟨.connect, some "example.org:443", false, some 443, none⟩ .default_ none
+    ⟨.delayedOk 30000, 30000, false, some true, false⟩ = [.egress .tcpConnect, ok200] := by decide
+
+end TT.Dispatch
